@@ -316,3 +316,82 @@ def reset_serial_state():
             obj[:] = orig
         else:
             obj.clear(); obj.update(orig)
+
+
+# ---- the process environment must not matter ------------------------------------------------------
+ENV_CHILD = r"""
+import sys, json, io, importlib
+harness, src = sys.argv[1], sys.argv[2]
+sys.path.insert(0, src); sys.path.insert(0, harness)
+import values
+from kio.serial import entity_reader, entity_writer
+out = []
+for key, rendered, extra_hex in json.load(sys.stdin):
+    mod, qn = key.split(":")
+    c = getattr(importlib.import_module(mod), qn)
+    rec = []
+    try:
+        obj = values.build(values.parse_str(rendered), c)
+        b = io.BytesIO(); entity_writer(c)(b, obj); data = b.getvalue()
+        rec.append(data.hex())
+        back = entity_reader(c)(io.BytesIO(data + b"\x07"))
+        rec.append(values.render(values.abstract(back)))
+    except Exception as e:
+        rec.append("err " + type(e).__name__)
+    for h in extra_hex:                       # malformed / truncated inputs: outcome class only
+        try:
+            v = entity_reader(c)(io.BytesIO(bytes.fromhex(h)))
+            rec.append("ok " + values.render(values.abstract(v)))
+        except Exception as e:
+            rec.append("err " + type(e).__name__)
+    out.append(rec)
+print(json.dumps(out))
+"""
+
+ENV_VARIANTS = (("TZ=America/New_York", {"TZ": "America/New_York"}, ()),
+                ("python -O (assertions stripped)", {"TZ": "UTC"}, ("-O",)),
+                ("PYTHONHASHSEED=7, TZ=IST-5:30", {"TZ": "IST-5:30", "PYTHONHASHSEED": "7"}, ()))
+
+
+def env_variants_check(classes, sample):
+    """encode, decode (and decode some damaged variants of) the sampled instances in child processes that
+    differ from the reference child only in their environment (local time zone, -O, hash seed); returns
+    failure records.  `sample` = [(class index, abstract value)]"""
+    import subprocess
+
+    cases = []
+    for i, a in sample:
+        c = classes.cls(i)
+        try:
+            buf = io.BytesIO()
+            from kio.serial import entity_writer
+            entity_writer(c)(buf, values.build(a, c))
+            d = buf.getvalue()
+            extra = [d[:-1].hex(), d[: len(d) // 2].hex(), (d[:-1] + b"\xff").hex()] if d else []
+        except Exception:  # noqa: BLE001
+            extra = []
+        cases.append([classes.keys[i], values.render(a), extra])
+    payload = json.dumps(cases).encode()
+
+    def run_child(env_, flags):
+        r = subprocess.run([common.PY, *flags, "-c", ENV_CHILD, os.path.join(common.VERIF, "harness"),
+                            os.path.join(common.REPO, "src")], input=payload, stdout=subprocess.PIPE,
+                           stderr=subprocess.PIPE, env={**os.environ, **env_}, timeout=900)
+        out = r.stdout.decode().strip()
+        return json.loads(out) if out.startswith("[") else ("ERR " + r.stderr.decode()[-400:])
+
+    base = run_child({"TZ": "UTC"}, ())
+    fails = []
+    if isinstance(base, str):
+        return [{"what": "environment child failed: " + base[:300], "class": "-"}]
+    for label, env_, flags in ENV_VARIANTS:
+        o = run_child(env_, flags)
+        if isinstance(o, str):
+            fails.append({"what": f"encode/decode fails under {label}: {o[:300]}", "class": "-"})
+            continue
+        for (key, rendered, _), b0, b1 in zip(cases, base, o):
+            if b0 != b1:
+                fails.append({"what": f"encoding / decoding gives another result under {label} than under TZ=UTC",
+                              "class": key, "value": rendered[:1500], "reference": str(b0)[:400], "got": str(b1)[:400]})
+                break
+    return fails
